@@ -274,3 +274,15 @@ package paymentsdb
 //@   loop * havoc
 //@   site call FetchHtlcAttemptsForPayments: assert len(arg(2)) == 1 && arg(2)[0] == paymentID
 //@   site return nil: assert retn(FetchHtlcAttemptsForPayments, 1) == nil && attempts[rangeindex + 1].AttemptIndex == swrap(attemptID, 64)
+//@
+//@ // ---- an unknown (never initiated, or deleted) payment is reported as ErrPaymentNotInitiated by every entry point of the SQL store,
+//@ // ---- as the kv store does: the existence check of RegisterAttempt goes through fetchPaymentByHash (finding F25)
+//@ func fetchPaymentByHash
+//@   props C16
+//@   site call FetchPayment: assert arg(2) == sliceof(paymentHash)
+//@   site return ErrPaymentNotInitiated: assert ret(Is, 1)
+//@   ensures result1 == nil ==> result0 == retn(FetchPayment, 0)
+//@
+//@ func (s *SQLStore) RegisterAttempt$1
+//@   site call fetchPaymentByHash: assert arg(2) == paymentHash
+//@   site call fetchPaymentWithCompleteData as payment-exists: assert retn(fetchPaymentByHash, 1) == nil
